@@ -109,6 +109,35 @@ func c08probes(t []float64) []geojson.Object {
 	return out
 }
 
+// docProbes: circles of three steps placed so that a position of the document lies inside the disc but outside the
+// circle's polygon approximation AND outside its rectangle (0.9 r south of the centre; the three-step polygon reaches
+// only 0.5 r south).  The disc is what a Circle means, whatever the representation of the other operand.
+func docProbes(o geojson.Object) (out []geojson.Object) {
+	defer func() { recover() }()
+	if o.Empty() {
+		return nil
+	}
+	r := o.Rect()
+	anchors := []geometry.Point{r.Min, r.Max, r.Center()}
+	if c, ok := o.(geojson.Collection); ok {
+		for i, ch := range c.Children() {
+			if i < 3 && !ch.Empty() {
+				anchors = append(anchors, ch.Center())
+			}
+		}
+	}
+	seen := map[geometry.Point]bool{}
+	for _, a := range anchors {
+		if seen[a] || !(a.X >= -170 && a.X <= 170 && a.Y >= -60 && a.Y <= 60) {
+			continue
+		}
+		seen[a] = true
+		out = append(out, geojson.NewCircle(geometry.Point{X: a.X, Y: a.Y + 0.5}, 61800, 3),
+			geojson.NewCircle(geometry.Point{X: a.X, Y: a.Y + 0.009}, 1112, 3))
+	}
+	return out
+}
+
 func predicateAnswers(o geojson.Object, probes []geojson.Object) (s string) {
 	defer func() {
 		if r := recover(); r != nil {
@@ -151,6 +180,9 @@ func c08(args []string) error {
 			}
 			text := r.ast.Text(ro)
 			probes := c08probes(ro.table)
+			if o0, err0 := geojson.Parse(text, nil); err0 == nil {
+				probes = append(probes, docProbes(o0)...)
+			}
 			var recs []obj
 			for _, run := range runs {
 				po := run.po
